@@ -2,9 +2,11 @@
 """Maintainer tool: after /repo's HEAD moved (merged fix/hook commits), refresh the pinned body hashes in
 checks/props_C*.py from the freshly extracted facts.json, so that the unchanged tree does not escalate."""
 import json, re, glob, subprocess, os
-subprocess.check_call(["bash", "-c", "cd /verif/extract && GOFLAGS=-mod=mod GOPROXY=off GOTOOLCHAIN=local go build -o /verif/bin/extract . && /verif/bin/extract"])
-facts = json.load(open("/verif/lean/Apko/Generated/facts.json"))["body_hashes"]
-for f in sorted(glob.glob("/verif/checks/props_C*.py")):
+V = os.path.dirname(os.path.dirname(os.path.abspath(__file__)))
+REPO = os.environ.get("VERIF_REPO", "/repo")
+subprocess.check_call(["bash", "-c", "cd %s/extract && GOFLAGS=-mod=mod GOPROXY=off GOTOOLCHAIN=local go build -o %s/bin/extract . && %s/bin/extract -repo %s -out %s/lean/Apko/Generated -facts %s/lean/Apko/Generated/facts.json" % (V, V, V, REPO, V, V)])
+facts = json.load(open(V + "/lean/Apko/Generated/facts.json"))["body_hashes"]
+for f in sorted(glob.glob(V + "/checks/props_C*.py")):
     s = open(f).read()
     n = 0
     def rep(m):
